@@ -401,16 +401,19 @@ func c03Tag(cfg string, before tensor.VerifMeta, colMajor bool, op c03op, kind s
 	}
 	isT := op.Name == "T" || op.Name == "SafeT" || op.Name == "pkgT" || op.Name == "pkgTranspose" || op.Name == "RollAxis"
 	moves := op.Name == "Transpose" || op.Name == "pkgTranspose" || ((op.Name == "T" || op.Name == "RollAxis") && pending)
+	// storage that holds more cells than the shape has elements: a view, or the copy SafeT makes of one (it keeps the
+	// window and the strides)
+	nonCompact := before.ViewOf != 0 || (before.ElSize > 0 && before.RawLen/before.ElSize > ref.Prod(before.Shape))
+	_ = selfOld // (the finding F-C03-noop-safeT-selfold that this precondition belonged to is repaired: c0295b9)
+	_ = isT
 	switch {
-	case selfOld && isT:
-		return "[KF:noop-safeT-selfold]"
 	case vec && before.ViewOf != 0 && !unit && isT:
 		return "[KF:strided-vector-view]"
 	case colMajor && moves:
 		return "[KF:colmajor-data-movement]"
 	case cfg == "inplacetranspose" && op.Name == "pkgTranspose" && kind == "unexpected-refusal":
 		return "[KF:inplace-pkgTranspose]"
-	case cfg == "inplacetranspose" && before.ViewOf != 0 && moves:
+	case cfg == "inplacetranspose" && nonCompact && moves:
 		return "[KF:inplace-view-data-movement]"
 	}
 	return ""
